@@ -16,7 +16,8 @@ EXPLANATION = (
     "Err becomes FallbackFailed / the transformed error inside Inner; value is a clone of the configured value), "
     "where the request clone is a clone of the request forwarded to the inner service; (CONFIG) builder methods "
     "keep the predicate and strategy that were configured. Closures themselves are opaque by definition."
-    ' (CLONE-FAITHFUL) the hand-written Clone of the fallback error maps every variant to itself.')
+    ' (CLONE-FAITHFUL) the hand-written Clone of the fallback error maps every variant to itself.'
+    ' (GATE-ONCE) the handle predicate is applied once per inner error.')
 RULE = "one obligation per Ok-return, per user-code call site, per strategy arm, per builder method field"
 TRUSTED = ["rustc MIR construction", "Option::map / unwrap_or semantics"]
 ASSUMPTIONS = []
